@@ -30,6 +30,8 @@ pub struct GenCfg
     pub p_gcpoll: u32,
     pub p_err: u32,
     pub p_notake: u32,
+    /// probability (percent) that an ops step is run as a frame (plain system in `Update` + the rest of `App::update`)
+    pub p_frame: u32,
     /// initial registration ops performed by the first driver step
     pub init: Vec<Op>,
 }
@@ -56,6 +58,7 @@ impl GenCfg
             p_gcpoll: v["p_gcpoll"].as_u64().unwrap_or(10) as u32,
             p_err: v["p_err"].as_u64().unwrap_or(10) as u32,
             p_notake: v["p_notake"].as_u64().unwrap_or(30) as u32,
+            p_frame: v["p_frame"].as_u64().unwrap_or(0) as u32,
             init: v["init"].as_array().map(|a| a.iter().map(Op::from_json).collect()).unwrap_or_default(),
         }
     }
@@ -136,12 +139,13 @@ impl Gen
         for _ in 0..20
         {
             let name = self.g.alphabet[self.rng.gen_range(0..self.g.alphabet.len())].clone();
-            let needs_access = matches!(name.as_str(), "resmut" | "resset" | "resno" | "mut" | "set" | "noreact" | "wadd" | "wrem" | "wrun" | "eadd" | "erem");
+            let needs_access = matches!(name.as_str(), "resmut" | "resset" | "resno" | "mut" | "set" | "noreact" | "wadd" | "wrem" | "wrun" | "eadd" | "erem" | "sysevsig");
             if exclusive && needs_access { continue; }
             let op = match name.as_str()
             {
                 "run" => Op::Run(self.sys(applied)),
                 "sysev" => Op::SysEv(self.sys(applied), self.payload()),
+                "sysevsig" => Op::SysEvSig(self.sys(applied), self.payload(), self.ent()),
                 "bc" => Op::Bc(self.ty(), self.payload()),
                 "eev" => Op::EEv(self.ent(), self.ty(), self.payload()),
                 "res" => Op::Res(self.ty()),
@@ -245,7 +249,8 @@ impl Gen
             if self.budget == 0 { self.budget = 1; }
             // between trees everything issued has been applied
             let applied = self.once_used.clone();
-            Step::Ops(self.ops(false, false, 1, &applied))
+            let ops = self.ops(false, false, 1, &applied);
+            if self.rng.gen_range(0..100) < self.g.p_frame { Step::Frame(ops) } else { Step::Ops(ops) }
         };
         self.steps_log.push(step.clone());
         Some(step)
